@@ -291,7 +291,7 @@ fn main() {
     }
     if s.tier == Tier::Thorough && !s.is_replay() {
         // coverage-guided campaign (libFuzzer) with the same oracle inside the target; fixed work
-        let c = kvh::fuzzrun::run("request_total", 1_500_000, s.seed, 2048, Some("/verif/fuzz/sparql.dict").filter(|d| std::path::Path::new(d).exists()));
+        let c = kvh::fuzzrun::run("request_total", 60_000, s.seed, 2048, Some("/verif/fuzz/sparql.dict").filter(|d| std::path::Path::new(d).exists()));
         eprintln!("libfuzzer request_total: executed {} ok={}\n{}", c.executed_units, c.ok, c.log_tail);
         let found: Vec<BytesCase> = c.new_artifacts.iter().filter_map(|p| std::fs::read(p).ok()).map(|b| BytesCase { bytes: b }).collect();
         let part = FuzzInput { name: "libfuzzer" };
